@@ -352,6 +352,13 @@ func (g *Gen) c09Mutate(arch []byte, ver int) []byte {
 				i = len(m) - 8 - g.pick(min(60, len(m)-8))
 			}
 			vals := []uint64{0, 1, 1 << 40, 1<<63 - 1, 1 << 63, ^uint64(0), uint64(len(m)), uint64(len(m)) + 1}
+			if ver == 2 {
+				// values that are plausible offsets INTO the file: inside the pragma, the header, the payload
+				// window, right at its ends (an index offset inside the payload, a data offset inside the index …)
+				dOff, dSize := leU64(arch[27:35]), leU64(arch[35:43])
+				vals = append(vals, 5, 11, 50, 51, 52, dOff+1, dOff+dSize/2, dOff+dSize-1, dOff+dSize, dOff+dSize+1,
+					uint64(g.pick(len(m))), uint64(g.pick(len(m))))
+			}
 			v := vals[g.pick(len(vals))]
 			for k := 0; k < 8 && i+k < len(m); k++ {
 				m[i+k] = byte(v >> (8 * k))
